@@ -138,6 +138,14 @@ pub fn run(rep: &mut Report, o: &Opts) {
                 }
             }
         }
+        // a hidden subcommand is named nowhere in the root's usage, flattened or not
+        if t.ux.override_usage.is_none() && real != "PANIC" {
+            let whole = String::from_utf8_lossy(&unhex(real.split(' ').nth(1).unwrap_or("-"))).to_string();
+            for h in &t.ux.hidden_subs {
+                if crate::c12::has_token(&whole, h) { rep.oracle_fail("hidden-item-shown", &key, &format!("hidden subcommand {h:?} appears in the usage {whole:?}")); }
+            }
+            if t.flatten { rep.count("usage:flattened_root_usages_scanned_for_hidden_subcommands"); }
+        }
         // ... and every VISIBLE REQUIRED argument of the root is named there (by a flag, its value name or its id)
         if !t.flatten && t.ux.override_usage.is_none() && real != "PANIC" {
             let line = String::from_utf8_lossy(&unhex(real.split(' ').nth(1).unwrap_or("-"))).to_string();
